@@ -17,7 +17,11 @@ impl Default for SnapOpts {
 
 /// Returns a list of (label, rendered answer).
 pub fn snapshot(h: &Hist, o: &SnapOpts) -> Vec<(String, String)> {
-    let net = h.net();
+    let len = h.model.best_chains()[0].len() as u32;
+    snapshot_for(h.net(), &h.uni.addrs, len, h.model.stable_height(), o)
+}
+
+pub fn snapshot_for(net: ic_btc_interface::Network, addrs: &[crate::gen::Addr], len: u32, sh: u32, o: &SnapOpts) -> Vec<(String, String)> {
     let mut v: Vec<(String, String)> = vec![];
     v.push(("get_config".into(), format!("{:?}", world::get_config())));
     match world::info() {
@@ -29,9 +33,8 @@ pub fn snapshot(h: &Hist, o: &SnapOpts) -> Vec<(String, String)> {
         }
         Out::Trap(m) => v.push(("info".into(), format!("TRAP {}", m))),
     }
-    let len = h.model.best_chains()[0].len() as u32;
     let top = (len + 1).min(o.max_c);
-    for a in h.uni.addrs.iter() {
+    for a in addrs.iter() {
         let mut fs: Vec<(String, Filter, Option<u32>)> = vec![("none".into(), Filter::None, None)];
         for c in 0..=top {
             fs.push((format!("c{}", c), Filter::MinConf(c), Some(c)));
@@ -56,8 +59,7 @@ pub fn snapshot(h: &Hist, o: &SnapOpts) -> Vec<(String, String)> {
             v.push((format!("balance[{}][{}]", a.text, name), format!("{:?}", b)));
         }
     }
-    let tip = h.model.stable_height() + len - 1;
-    let sh = h.model.stable_height();
+    let tip = sh + len - 1;
     let mut ranges: Vec<(u32, Option<u32>)> = vec![(0, None), (tip, None), (tip + 1, None)];
     for s in sh.saturating_sub(2)..=sh + 2 {
         ranges.push((s, None));
